@@ -878,6 +878,14 @@ def _(c):
 
     def permuted(x):
         h0, h, s = x.h0, x.h, x.a.self
+        import contracts.vocab as V
+
+        if V.RT_EVAL is not None:  # run-time cross-check: decide the existential natively (same list object, same nodes, each once)
+            E = V.RT_EVAL
+            n0, n1 = E.value(h0.clen(s)), E.value(h.clen(s))
+            before = [E.value(h0.child(s, z3.IntVal(i))) for i in range(n0)]
+            after = [E.value(h.child(s, z3.IntVal(i))) for i in range(n1)]
+            return z3.BoolVal(bool(E.holds(h._children(s) == h0._children(s))) and sorted(map(id, before)) == sorted(map(id, after)))
         perms = x.p.ghost.get("perms") if getattr(x, "p", None) is not None else None
         if perms:
             _l, perm, inv = perms[-1]
@@ -902,9 +910,11 @@ def _(c):
     c.may_raise("Callback", ensures=lambda x: And(permuted(x), wf1(x)), name="the key callback raises: still a permutation, still well-formed")
 
     def pos_exit(x, o):
-        perms = x.p.ghost.get("perms")
+        perms = x.p.ghost.get("perms") if getattr(x, "p", None) is not None else None
         if not perms:
-            return x.h0.pos(o)
+            import contracts.vocab as V
+
+            return x.h.pos(o) if V.RT_EVAL is not None else x.h0.pos(o)  # (at run time the witness of list.sort is not available: the real positions stand)
         _l, _perm, inv = perms[-1]
         return If(And(x.h0._parent(o) == x.a.self, x.h0.mem(x.T, o)), inv(x.h0.pos(o)), x.h0.pos(o))
 
